@@ -145,6 +145,9 @@ Proof.
     rewrite idle_prompted_proof by (unfold is_legacy; rewrite F; reflexivity).
     rewrite unhandled_proof. reflexivity.
   - rewrite A, unhandled_proof, andb_true_r. cbn [andb].
+    assert (RG : removed_gone h (spec_run proto hb h) = true).
+    { rewrite spec_run_modern by (unfold is_legacy; rewrite F; reflexivity). apply m_removed_gone_gen. }
+    rewrite RG, andb_true_r.
     apply forallb_forall. intros id _. apply forallb_Forall_leb.
     apply per_id_proof. unfold is_legacy. rewrite F. reflexivity.
 Qed.
